@@ -21,6 +21,8 @@
 #############################################################################
 
 from abc import abstractmethod
+import datetime
+import math
 
 from dashlive.mpeg.dash.event_stream import EventStream
 from dashlive.mpeg.mp4 import EventMessageBox
@@ -39,9 +41,15 @@ class RepeatingEventBase(EventBase):
             timescale=self.timescale,
             inband=self.inband)
 
-        if not self.inband and self.count > 0:
-            presentation_time = self.start
-            for idx in range(self.count):
+        if not self.inband:
+            first = 0
+            last = self.count - 1
+            if self.count <= 0:
+                # an unbounded schedule: list the events of the time span
+                # that this manifest describes
+                first, last = self.unbounded_event_range(context)
+            for idx in range(first, last + 1):
+                presentation_time = self.start + idx * self.interval
                 data = self.get_manifest_event_payload(idx, presentation_time)
                 stream.events.append({
                     'data': data,
@@ -49,8 +57,29 @@ class RepeatingEventBase(EventBase):
                     'id': idx,
                     'presentationTime': presentation_time
                 })
-                presentation_time += self.interval
         return stream
+
+    def unbounded_event_range(self, context: dict) -> tuple[int, int]:
+        """
+        The indexes of the first and last event of a schedule without a count
+        that fall within the manifest: the time shift buffer of a live stream,
+        or the whole of a static presentation
+        """
+        def seconds(value) -> float:
+            if isinstance(value, datetime.timedelta):
+                return value.total_seconds()
+            return float(value or 0)
+
+        elapsed = context.get('elapsedTime')
+        if elapsed is not None:
+            end = seconds(elapsed)
+            begin = max(0.0, end - seconds(context.get('timeShiftBufferDepth')))
+        else:
+            begin = 0.0
+            end = seconds(context.get('mediaDuration'))
+        first = math.ceil((begin * self.timescale - self.start) / self.interval)
+        last = math.ceil((end * self.timescale - self.start) / self.interval) - 1
+        return (max(0, first), last)
 
     @abstractmethod
     def get_manifest_event_payload(self, index, presentation_time) -> str:
